@@ -646,7 +646,7 @@ def rule_pow(ctx):
 def run(ctx):
     S = ctx.soft
     from .common import rule_memo, nomut_for
-    ops = S(list, ctx.registry.operators.values())
+    ops = list(ctx.registry.operators.values())
     return [S(rule_optable, ctx), S(rule_errfirst, ctx), S(rule_rank, ctx),
             S(rule_funnel, ctx), S(rule_pow, ctx),
             S(rule_memo, ctx, 'C02', 'C02.memo', ops),
